@@ -76,7 +76,8 @@ PROPS["C15"] = dict(
          "text; names a, b, empty, NULL; with and without replace; get of each type; delete one/all), one implementation"
          " test per transition, on builder claims and builder headers, and the same behaviours on the jwt_t inside a "
          "generate callback and a verify callback; (seq) all sequences up to length 3 (quick) / 4 (thorough) over a "
-         "16-operation alphabet; (walk) seeded random walks of 200 operations with 64-bit extremes. After every "
+         "20-operation alphabet (incl. the empty string and non-UTF-8 strings as values); every request's jwt_value_t "
+         "carries a stale error code; (walk) seeded random walks of 200 operations with 64-bit extremes. After every "
          "operation the whole header and claim objects are read back and compared with the model. distinct = distinct "
          "script hashes.",
     assumptions=ASSUME_COMMON,
@@ -98,10 +99,10 @@ PROPS["C02"] = dict(
          "admitted checker configuration x 37 header alg spellings (14 names, none/None/NONE, case and padding variants,"
          " unknown, missing, non-string, near misses: family prefix, one more character, a NUL character inside, single "
          "letters) x signature class {empty, garbage, valid under the configured key, genuine under the checker's own "
-         "algorithm whatever the header says, HMAC under the empty key, HMAC under the public PEM, valid under another "
-         "key} x route {setkey, callback sets key+alg, key only, alg only}; (C) builder configurations x routes -> "
-         "generate. quick uses one key per family and 9 of 16 configured algs, thorough all. distinct = distinct cells "
-         "(script hashes).",
+         "algorithm whatever the header says, genuine under the algorithm the key is made for (an ECDSA signature "
+         "labelled EdDSA), HMAC under the empty key, HMAC under the public PEM, valid under another key} x route "
+         "{setkey, callback sets key+alg, key only, alg only}; (C) builder configurations x routes -> generate. quick "
+         "uses one key per family and 9 of 16 configured algs, thorough all. distinct = distinct cells (script hashes).",
     assumptions=ASSUME_COMMON,
     level_text="The space is finite and TLC enumerates it completely within the chosen key set; the reference "
                "outcome is shown to satisfy C02 on every cell, and every cell is executed against libjwt and judged "
@@ -146,9 +147,9 @@ PROPS["C01"] = dict(
          "truncated by 1/2, extended by random/zero bytes, signed over header only / payload only / with trailing dot / "
          "swapped segments / other text / the decoded JSON, by another key, by the same key under a sibling algorithm, "
          "ES: r and s zero-extended to wider widths, DER; HS: HMAC under empty and all-zero keys and, for public keys, "
-         "under the PEM text} + header/payload altered after signing; each cell concretised 3 (quick) / 300 (thorough) "
-         "times with seed-drawn positions. Signatures are made by the driver's own signer. distinct = distinct cells x "
-         "reps.",
+         "under the PEM text; a genuine MAC that begins with / contains a zero octet offered with every later octet "
+         "changed} + header/payload altered after signing; each cell concretised 3 (quick) / 300 (thorough) times with "
+         "seed-drawn positions. Signatures are made by the driver's own signer. distinct = distinct cells x reps.",
     assumptions=ASSUME_COMMON + ["cryptography is treated as perfect: a mutated valid signature is assumed invalid (by construction, not by TLC)"],
     level_text="Exhaustive over the abstract cells (key class x algorithm x provider x signature/alteration class); "
                "within a cell bytes are sampled. Accepting any cell whose class is not 'valid signature by the "
@@ -181,13 +182,16 @@ PROPS["C09"] = dict(
 PROPS["C14"] = dict(
     level="model_checking", exhaustive=True,
     stages=lambda tier, seed: [mc("causes", "MC_C14", "MC_C14_%s.cfg" % tier), gen("apiwalk", G.api_walks(300 if tier == "quick" else 20000, 60))],
-    rule="one script per failure cause from MC_C14: 40 failing token classes (NULL/empty, missing dots, header not "
-         "base64 / not JSON / not an object / without or with non-string or unknown alg, payload not base64 / not "
-         "JSON, unsigned, bit-flipped / garbage / non-base64 / truncated / wrong-key / wrong-alg signature, expired, "
-         "not yet valid, exp/nbf of wrong type, altered payload) under HS256 and RS256 (and ES256 in thorough), each "
-         "as ok-fail-ok-fail-clear-fail on one checker; 12 policy causes (no key, refused setkey, iss/aud mismatch, "
-         "callback error, callback-selected inadmissible key/alg, key below floor, wrong family, unknown alg "
-         "attribute); 17 builder causes; 23 JWK defects; value set/get calls. distinct = distinct scripts.",
+    rule=
+         "one script per failure cause from MC_C14: 40 failing token classes (NULL/empty, missing dots, header not "
+         "base64 / not JSON / not an object / without or with non-string or unknown alg, payload not base64 / not JSON, "
+         "unsigned, bit-flipped / garbage / non-base64 / truncated / wrong-key / wrong-alg signature, expired, not yet "
+         "valid, exp/nbf of wrong type, altered payload) under HS256 and RS256 (and ES256 in thorough), each as ok-fail-"
+         "ok-fail-clear-fail on one checker; 12 policy causes (no key, refused setkey, iss/aud mismatch, callback error,"
+         " callback-selected inadmissible key/alg, key below floor, wrong family, unknown alg attribute); 17 builder "
+         "causes; 23 JWK defects; value set/get calls incl. string values that are not UTF-8 on a fresh name, on an "
+         "existing one with and without replace, and from a generate callback (every request carries a stale error code "
+         "in its jwt_value_t). distinct = distinct scripts.",
     assumptions=ASSUME_COMMON,
     level_text="Every externally reachable failure cause the specification knows (its reject classes) is enumerated by "
                "TLC and executed; after each call the return value, the error flag and the message-non-empty bit "
@@ -204,14 +208,16 @@ PROPS["C04"] = dict(
         mc("lattice", "MC_C04", "MC_C04_%s.cfg" % tier),
         gen("walk", G.c04_walks(4000 if tier == "quick" else 200000)),
     ],
-    rule="from MC_C04: boundary lattice exp - (now - leeway) and nbf - (now + leeway) in {-2..2} for now in "
-         "{0, 1.7e9, 2^40} x leeway in {-1, 0, 1, 300, 2^31, 2^40}, far values and 64-bit extremes, defaults without "
-         "any configuration call, both claims at once, every JSON type in place of exp/nbf, 17 expected/actual string "
-         "pairs (prefix, suffix, case, empty, non-ASCII, embedded NUL, wrong type, absent) for iss/sub/aud, all "
-         "combinations of three string checks; all sequences of up to 2 (quick) / 3 (thorough) configuration calls "
-         "over a 12-call alphabet followed by five probe tokens; every case with an unsigned and an HS256-signed "
-         "token. Plus seeded random cases with uniformly drawn 64-bit exp/nbf, clocks and leeways. 64-bit values are "
-         "compared in TLC as limb triples (Wide.tla). distinct = distinct scripts.",
+    rule=
+         "from MC_C04: boundary lattice exp - (now - leeway) and nbf - (now + leeway) in {-2..2} for now in {0, 1.7e9, "
+         "2^40} x leeway in {-1, 0, 1, 300, 2^31, 2^40}, far values and 64-bit extremes, defaults without any "
+         "configuration call, both claims at once, every JSON type in place of exp/nbf, 26 expected/actual string pairs "
+         "(prefix, suffix, case, empty, non-ASCII, embedded NUL, wrong type, absent; values of 255..65536 characters "
+         "that are equal, differ in the last character only, or are a prefix of one another) for iss/sub/aud, all "
+         "combinations of three string checks; all sequences of up to 2 (quick) / 3 (thorough) configuration calls over "
+         "a 12-call alphabet followed by five probe tokens; every case with an unsigned and an HS256-signed token. Plus "
+         "seeded random cases with uniformly drawn 64-bit exp/nbf, clocks and leeways. 64-bit values are compared in TLC"
+         " as limb triples (Wide.tla). distinct = distinct scripts.",
     assumptions=ASSUME_COMMON,
     level_text="Exhaustive on the boundary lattice and the bounded configuration histories (TLC shows the reference "
                "satisfies C04 there), every case executed against libjwt and judged in both directions: accepted "
@@ -251,11 +257,12 @@ PROPS["C13"] = dict(
          "restored, callback selecting another key for one call, refused setkey, error_clear) on a checker with setkey, "
          "5 elements on a checker whose keys only ever come from its callback, 8 elements on a checker with claim "
          "expectations (verify matching / other / missing iss, claim_set valid and with values that are not UTF-8 - "
-         "which fail after making the claim mandatory -, claim_del, error_clear), and over 7 builder elements (generate,"
-         " failing callback, callback selecting another key once, key below the floor then restored, refused setkey, "
-         "error_clear, claim change) on builders with and without setkey; every verify/generate is also performed on a "
-         "freshly created twin configured by replaying the same configuration calls, and both results are logged. "
-         "distinct = distinct sequences.",
+         "which fail after making the claim mandatory -, claim_del, error_clear), 7 elements on the callback's life "
+         "cycle (verify good / bad signature, install a refusing callback that stays, install an accepting one, remove "
+         "it, context-only update, error_clear), and over 7 builder elements (generate, failing callback, callback "
+         "selecting another key once, key below the floor then restored, refused setkey, error_clear, claim change) on "
+         "builders with and without setkey; every verify/generate is also performed on a freshly created twin configured"
+         " by replaying the same configuration calls, and both results are logged. distinct = distinct sequences.",
     assumptions=ASSUME_COMMON + ["'identically configured' = the same sequence of configuration calls replayed on a new object"],
     level_text="TLC enumerates every history up to the bound; on the specification the configuration a verdict is "
                "computed from is shown to be a function of the configuration calls alone (invariant "
@@ -298,12 +305,14 @@ PROPS["C05"] = dict(
          "from MC_C05: (key, algorithm) pairs of every supported type x (signing provider, verifying provider) in "
          "{openssl, gnutls}^2 x header tree class x claim tree class {flat, nested depth 6, unicode (+ empty, 63-bit "
          "integers, strings to 64 KiB in thorough)} x time configuration {default, exp+nbf offsets with clock advance, "
-         "iat off, expiry a century / 2^31+1000 s ahead, exp claims of year 9999 and LONG_MAX}; generate, then verify on"
-         " a checker holding the public form with a callback that reads header and claims. JSON trees are seeded random "
-         "per case; what the builder was given, what the token carries and what the callback read are digested by one "
-         "canonicaliser (sorted, compact) after removing alg/typ/iat/nbf/exp, which are compared member by member. Stage"
-         " 'ecdsa': 500 (quick) / 20000 (thorough) generate+verify pairs per curve and signing provider; "
-         "coverage.short_rs counts signatures whose r or s has a leading zero byte. distinct = distinct scripts.",
+         "iat off, expiry a century / 2^31+1000 s ahead, exp claims of year 9999 and LONG_MAX}; plus JSON text with the "
+         "escape \\u0000 inside strings given to the builder's header and claims (taken or refused, what is generated "
+         "must verify); generate, then verify on a checker holding the public form with a callback that reads header and"
+         " claims. JSON trees are seeded random per case; what the builder was given, what the token carries and what "
+         "the callback read are digested by one canonicaliser (sorted, compact) after removing alg/typ/iat/nbf/exp, "
+         "which are compared member by member. Stage 'ecdsa': 500 (quick) / 20000 (thorough) generate+verify pairs per "
+         "curve and signing provider; coverage.short_rs counts signatures whose r or s has a leading zero byte. distinct"
+         " = distinct scripts.",
     assumptions=ASSUME_COMMON + ["JSON equality is decided on SHA-256 digests of jansson's canonical dump computed by the driver for all three sides"],
     level_text="The behaviour matrix (key/alg x provider pair x tree class x time configuration) is enumerated by TLC, "
                "which also shows that on the specification every generated token is accepted by the matching checker; "
@@ -322,21 +331,30 @@ def _c12_stages(tier, seed):
     for i, v in enumerate(_ENVS):
         st.append(gen("env%d" % i, (lambda vv: (lambda seed: [[dict(op="OpsEnv", want=vv)]]))(v), dopts=dict(env={"JWT_CRYPTO": v}), exhaustive=True))
     st.append(gen("envunset", lambda seed: [[dict(op="OpsEnv", want="~")]], exhaustive=True))
+    st.append(gen("rotation", G.c12_rotation(2 if tier == "quick" else 12),
+                  dopts=dict(env={"ASAN_OPTIONS": "detect_leaks=1:leak_check_at_exit=0:abort_on_error=0:exitcode=23:allocator_may_return_null=1:"
+                                                  "detect_stack_use_after_return=0:quarantine_size_mb=0:thread_local_quarantine_size_kb=0"})))
     return st
 
 
 PROPS["C12"] = dict(
     level="model_checking", exhaustive=True,
     stages=_c12_stages,
-    rule="from MC_C12: (A) one forged token per cell, kept in a slot and verified under both providers in both orders "
-         "(key loaded under either provider): every common (key, algorithm) pair x {valid, empty, garbage, not "
-         "base64, flipped first/any bit, truncated, extended with zero/random bytes, signed over other text, other "
-         "key, sibling algorithm, ES: zero-extended r||s and DER} and header/payload altered after signing; (B) "
-         "deterministic algorithms (HS*, RS*, EdDSA): the same builder generates under provider 1 and provider 2, "
-         "token digests must be equal and each provider verifies both; randomised ones (PS*, ES*): cross acceptance; "
-         "(C) all pairs of set_crypto_ops/_t calls over 12 names (exact, case variants, padded, prefixes, unknown, "
-         "empty) and ids -1..5, 99; (D) one driver process per JWT_CRYPTO value {openssl, gnutls, GnuTLS, 'gnutls ', "
-         "mbedtls, '', x, opensslgnutls, unset}. Each matrix cell is concretised 2 (quick) / 60 (thorough) times.",
+    rule=
+         "from MC_C12: (A) one forged token per cell, kept in a slot and verified under both providers in both orders "
+         "(key loaded under either provider): every common (key, algorithm) pair x {valid, empty, garbage, not base64, "
+         "flipped first/any bit, truncated, extended with zero/random bytes, signed over other text, other key, sibling "
+         "algorithm, ES: zero-extended r||s and DER} and header/payload altered after signing; (B) deterministic "
+         "algorithms (HS*, RS*, EdDSA): the same builder generates under provider 1 and provider 2, token digests must "
+         "be equal and each provider verifies both; randomised ones (PS*, ES*): cross acceptance; (C) all pairs of "
+         "set_crypto_ops/_t calls over 12 names (exact, case variants, padded, prefixes, unknown, empty) and ids -1..5, "
+         "99; (D) one driver process per JWT_CRYPTO value {openssl, gnutls, GnuTLS, 'gnutls ', mbedtls, '', x, "
+         "opensslgnutls, unset}. (E) history: an unusable JWKS member, a refused RS256 and a refused ES512 token under "
+         "either provider before the verdict comparison. Each matrix cell is concretised 2 (quick) / 60 (thorough) "
+         "times. Stage 'rotation': sign with key A, free its keyring, load key B (same type for six pairs, another type "
+         "for three), sign, verify under both providers, 2..3 (quick) / up to 13 (thorough) rotations per script - run "
+         "with a zero ASan quarantine so that the freed key's address is reused at once; the token must carry the "
+         "current key's signature and both providers must accept it.",
     assumptions=ASSUME_COMMON,
     level_text="TLC enumerates the matrix and checks on the specification that verdicts and deterministic tokens do "
                "not depend on the provider variable and that the provider changes only on an exact name/id; each "
@@ -358,12 +376,14 @@ PROPS["C06"] = dict(
          "whitespace, not JSON, array, scalar, string, null, not base64, length 1 mod 4, empty, {}, duplicate keys) x "
          "payload class x 20 alg spellings (incl. missing, each non-string JSON type, printf conversions, family prefix,"
          " one more character, a NUL character inside) x signature class, one dimension at a time plus header x payload "
-         "pairs, against key-less, HS256, RS256, ES256 and EdDSA checkers on both providers: the class is known by "
-         "construction, so rejection is judged; (fuzz) seeded byte-level mutations (set/delete/insert of structural and "
-         "high-bit bytes, truncation, duplication, padding to 64 KiB) of tokens the library generated itself, and random"
-         " byte strings of 0..64 KiB, 250 per case, under the same eight configurations: these constrain only 'the call "
-         "returns, no sanitizer report, no leak'. Recorded under ASan+UBSan, LeakSanitizer check every 20 cases and at "
-         "exit, 20 s watchdog per case. distinct = distinct scripts (fuzz cases differ in every token).",
+         "pairs, plus checkers expecting iss / sub / aud x that claim as every JSON type (string, empty string, integer,"
+         " boolean, null, real, array, object, string with NUL), against key-less, HS256, RS256, ES256 and EdDSA "
+         "checkers on both providers: the class is known by construction, so rejection is judged; (fuzz) seeded byte-"
+         "level mutations (set/delete/insert of structural and high-bit bytes, truncation, duplication, padding to 64 "
+         "KiB) of tokens the library generated itself, and random byte strings of 0..64 KiB, 250 per case, under the "
+         "same eight configurations: these constrain only 'the call returns, no sanitizer report, no leak'. Recorded "
+         "under ASan+UBSan, LeakSanitizer check every 20 cases and at exit, 60 s watchdog per call. distinct = distinct "
+         "scripts (fuzz cases differ in every token).",
     assumptions=ASSUME_COMMON + ["byte-level inputs are generated without coverage feedback; this is weaker than a coverage-guided fuzzer"],
     level_text="Exploration: the structural classes of the specification's Parse function are enumerated completely "
                "and judged (non-zero for every malformed class); memory safety, termination and leak freedom are "
@@ -467,8 +487,9 @@ PROPS["C17"] = dict(
          "scenario the driver counts the allocation requests N made by libjwt and jansson through jwt_set_alloc's "
          "allocator inside library calls and re-runs it once per k in 0..N-1 with request k returning NULL, each in a "
          "forked child under ASan/UBSan, stopping after the operation in which the fault fired and then freeing "
-         "everything. evaluations = judged events; coverage.fault_runs = number of (scenario, k) runs; "
-         "distinct_nontrivial = distinct scenarios.",
+         "everything. A load that still reports success must yield the items of the fault-free run, including their "
+         "projected key material (PEM present and parseable, components equal). evaluations = judged events; "
+         "coverage.fault_runs = number of (scenario, k) runs; distinct_nontrivial = distinct scenarios.",
     assumptions=ASSUME_COMMON + ["only allocations routed through jwt_set_alloc (libjwt and jansson) are failed; OpenSSL/GnuTLS internal allocations are not"],
     level_text="Exhaustive over the fault position k for every scenario: each operation of a faulted run must either "
                "give the fault-free result (same verdict / same decoded token content / same list) or report failure "
@@ -482,17 +503,19 @@ PROPS["C18"] = dict(
     level="exploration", variant="tsan", exhaustive=False, call_timeout=300,
     stages=lambda tier, seed: [mc("threads", "MC_C18", "MC_C18_%s.cfg" % tier, target_ops=1,
                                   dopts=dict(env={"TSAN_OPTIONS": "halt_on_error=1:exitcode=66:report_signal_unsafe=0:second_deadlock_stack=1"}))],
-    rule="On the specification (MC_C18): all interleavings of three threads, each taking generate / verify own token / "
-         "verify damaged token on its own builder and checker over one shared keyring; every result equals the result "
-         "of the same call made alone; the keyring, provider and clock are never written. Against the implementation: "
-         "12 (GnuTLS) / 13 (OpenSSL) threads at once - HS256, HS512, RS256, PS256, ES256, ES384, ES512, EdDSA "
-         "(Ed25519, Ed448), ES256K, three algorithms twice - each with its own builder and checker, sharing one "
-         "keyring of 12 keys, 150 (quick) / 2000 (thorough) iterations of claim_set + generate + verify + verify "
-         "damaged, random start skew, 4 (quick) / 30 (thorough) repetitions per provider - in every other repetition the "
-         "threads do not hold their keys but look them up by kid in the shared keyring from their callbacks at every call -, libjwt and driver built with "
-         "ThreadSanitizer (halt on first report); the same calls are first made one after another and both result "
-         "lists (verdicts, and token digests for deterministic algorithms) are compared in TLC. distinct = distinct "
-         "(provider, repetition) runs; evaluations = Thread events judged.",
+    rule=
+         "On the specification (MC_C18): all interleavings of three threads, each taking generate / verify own token / "
+         "verify damaged token on its own builder and checker over one shared keyring; every result equals the result of"
+         " the same call made alone; the keyring, provider and clock are never written. Against the implementation: 12 "
+         "(GnuTLS) / 13 (OpenSSL) threads at once - HS256, HS512, RS256, PS256, ES256, ES384, ES512, EdDSA (Ed25519, "
+         "Ed448), ES256K, three algorithms twice - each with its own builder and checker, sharing one keyring of 12 "
+         "keys, 150 (quick) / 2000 (thorough) iterations of claim_set + generate + verify + verify damaged, random start"
+         " skew, 6 (quick) / 30 (thorough) repetitions per provider - in one repetition of three the threads hold their "
+         "keys, in one they look them up by kid in the shared keyring from their callbacks at every call "
+         "(jwks_find_bykid), in one they walk the shared keyring by index (jwks_item_count / jwks_item_get) -, libjwt "
+         "and driver built with ThreadSanitizer (halt on first report); the same calls are first made one after another "
+         "and both result lists (verdicts, and token digests for deterministic algorithms) are compared in TLC. distinct"
+         " = distinct (provider, repetition) runs; evaluations = Thread events judged.",
     assumptions=ASSUME_COMMON + ["data races are detected by ThreadSanitizer on the schedules that actually occurred; OpenSSL, GnuTLS and jansson are not instrumented"],
     level_text="Exploration: schedules of the real code are sampled under a race detector, not enumerated; the model-"
                "checked part is the design (no shared mutable state between separate builders/checkers).",
